@@ -179,7 +179,7 @@ def merge(results):
     return m
 
 
-def write_evidence(prop, tier, seed, world_cls, m, wall, n_viol, known_lines, extra=None):
+def write_evidence(prop, tier, seed, world_cls, m, wall, n_viol, known_lines, extra=None, excluded=()):
     runs = max(m['runs'], 0)
     per_hour = int(runs / wall * 3600) if wall > 0 else 0
     probes = {p: int(m['probes'].get(p, 0)) for p in world_cls.PROBES}
@@ -202,7 +202,10 @@ def write_evidence(prop, tier, seed, world_cls, m, wall, n_viol, known_lines, ex
         'op_counts': dict(sorted(m['counters'].items())),
         'faults_fired': dict(sorted(m['faults'].items())),
         'probes': dict(sorted(probes.items())),
-        'probes_at_zero': sorted(k for k, v in probes.items() if v == 0),
+        'probes_at_zero': sorted(k for k, v in probes.items() if v == 0 and
+                                 getattr(world_cls, 'PROBE_TRIGGER', {}).get(k) not in excluded),
+        'probes_withheld_by_known_finding': sorted(k for k, v in probes.items() if v == 0 and
+                                                   getattr(world_cls, 'PROBE_TRIGGER', {}).get(k) in excluded),
         'near_miss': dict(sorted(m['near_miss'].items())),
         'hashseeds': sorted(m['hashseeds']),
         'simulated_time_s': round(m['sim_time_s'], 3),
@@ -316,7 +319,7 @@ def cmd_check(prop, tier, repo, batch_seed, runs=None, quiet=False, wall=None, o
     wall_used = time.monotonic() - t0
     if m['runs'] > 0 and not no_evidence:
         write_evidence(prop, tier, batch_seed, world_cls, m, wall_used,
-                       len(verified) + len(kviols), known_lines)
+                       len(verified) + len(kviols), known_lines, excluded=excluded)
     if errors and rc == 0:
         for e in errors:
             print('HARNESS-ERROR %s' % e)
